@@ -8,6 +8,7 @@ import (
 	"archive/zip"
 	"bytes"
 	"crypto/sha1"
+	"encoding/json"
 	"fmt"
 	"image"
 	"image/color"
@@ -59,7 +60,10 @@ func dumpTemplateData(d *document.TemplateData) string {
 		h := sha1.Sum(im.Data)
 		// every field, also ones this harness does not know by name (%+v prints unexported fields too)
 		all := sha1.Sum([]byte(fmt.Sprintf("%+v", *im)))
-		fmt.Fprintf(&b, "[%s path=%q data=%d:%x alt=%q title=%q cfg=%v all=%x]", n, im.FilePath, len(im.Data), h[:4], im.AltText, im.Title, im.Config != nil, all[:4])
+		// (the configuration is reached through a pointer: its contents are dumped as well, sizes included)
+		cfgJSON, _ := json.Marshal(im.Config)
+		cfgDump := string(cfgJSON)
+		fmt.Fprintf(&b, "[%s path=%q data=%d:%x alt=%q title=%q cfg=%s all=%x]", n, im.FilePath, len(im.Data), h[:4], im.AltText, im.Title, cfgDump, all[:4])
 	}
 	fmt.Fprintf(&b, " vars=%v lists=%d conds=%v", d.Variables, len(d.Lists), d.Conditions)
 	return b.String()
